@@ -9,7 +9,7 @@
 
 From Coq Require Import ZArith QArith List Bool.
 From ML Require Import base.RustSem model.Fmt model.Number model.Parse model.Top model.Vec model.Bigint spec.Decimal spec.Round spec.RneZ spec.RneBridge
-  gen.Consts gen.Tables gen.BTables gen.PowDump proofs.LimbVal proofs.ParseFacts proofs.Glue proofs.NoUB proofs.BigintFacts2.
+  gen.Consts gen.Tables gen.BTables gen.PowDump proofs.LimbVal proofs.ParseFacts proofs.Glue proofs.NoUB proofs.BigintFacts2 proofs.FastPathFacts proofs.EndToEnd proofs.TableFacts.
 Import ListNotations.
 
 Open Scope Z_scope.
@@ -28,6 +28,21 @@ Theorem C04_parse_number_exact :
   forall (b : build) (i f : list Z) (e : Z),
          valid_inputb i f e = true -> parse_number b i f e = Ok (parse_spec i f e).
 Proof. exact parse_number_exact. Qed.
+
+Theorem C04_try_fast_path_no_panic_shipped :
+  forall (c : config) (f : format) (b : build) (n : number),
+         In c ALL_CONFIGS ->
+         f = F32 \/ f = F64 ->
+         0 <= nmant n < 2 ^ 64 ->
+         - 2 ^ 31 <= nexp n < 2 ^ 31 -> exists r : option Z, try_fast_path c TABLES f b n = Ok r.
+Proof. exact try_fast_path_no_panic_shipped. Qed.
+
+Theorem C04_fast_class_no_panic :
+  forall (c : config) (f : format) (b : build) (BT : btables) (L : limits) (i fr : list Z) (e : Z),
+         In c ALL_CONFIGS ->
+         f = F32 \/ f = F64 ->
+         fast_class f i fr e -> exists bits : Z, parse_float c TABLES BT L f b i fr e = Ok bits.
+Proof. exact fast_class_no_panic. Qed.
 
 Theorem C04_parse_float_float_or_panic :
   forall (c : config) (T : tables) (BT : btables) (L : limits) (f : format) 
@@ -88,6 +103,8 @@ Proof. exact from_u64_spec. Qed.
 Print Assumptions C04_parse_number_no_panic.
 Print Assumptions C04_parse_number_build_indep.
 Print Assumptions C04_parse_number_exact.
+Print Assumptions C04_try_fast_path_no_panic_shipped.
+Print Assumptions C04_fast_class_no_panic.
 Print Assumptions C04_parse_float_float_or_panic.
 Print Assumptions C04_shl_no_panic.
 Print Assumptions C04_shl_bits_no_panic.
